@@ -61,7 +61,7 @@ func opLine(mode string, c *Chunk) string {
 	return "prog\t" + mode + "\t" + c.Sexp() + "\t" + hx(c.Src("\n"))
 }
 
-// refCache: op line (mode impl, as in ops.txt) → reference outcome (mode ref).
+// refCache: op line (as in ops.txt) → reference outcome.
 var refCache = map[string]string{}
 
 func withMode(op, mode string) string {
